@@ -229,6 +229,37 @@ func c11Receivers(quick bool) []c11Recv {
 			}})
 		}
 	}
+	// a validity policy that currently says no (on the receiver, on a nested stack), and presentation
+	// settings that interact: a blank encapsulator in front of another one under no-padding, every pair of
+	// presentation options on one instance
+	for mode := 0; mode < 4; mode++ {
+		mode := mode
+		fin := func(s stackage.Stack) any {
+			if mode&1 != 0 {
+				s.SetMutex()
+			}
+			if mode&2 != 0 {
+				s.SetReadOnly(true)
+			}
+			return s
+		}
+		out = append(out,
+			c11Recv{fmt.Sprintf("AND/rejecting-validity/mode%d", mode), func() any {
+				no := func(...any) error { return errCat }
+				return fin(stackage.And().SetValidityPolicy(no).Push("a", stackage.Or().SetValidityPolicy(no).Push("n1", "n2"), stackage.Cond("k", stackage.Eq, stackage.List().SetValidityPolicy(no).Push("e"))))
+			}},
+			c11Recv{fmt.Sprintf("OR/rejecting-validity-below/mode%d", mode), func() any {
+				no := func(...any) error { return errCat }
+				return fin(stackage.Or().Push("x", stackage.And().SetValidityPolicy(no).Push("a", "b", "c"), "y"))
+			}},
+			c11Recv{fmt.Sprintf("AND/blank-encap-nopad/mode%d", mode), func() any {
+				return fin(stackage.And().SetEncap(" ", `"`).SetNoPadding(true).SetSymbol("||").SetParen(true).Push("cn", "sn", stackage.Cond("k", stackage.Eq, "v").SetEncap(" ", []string{"<", ">"}, "'").SetNoPadding(true)))
+			}},
+			c11Recv{fmt.Sprintf("LIST/blank-encap-last/mode%d", mode), func() any {
+				return fin(stackage.List().SetEncap(`"`, " ").SetNoPadding(true).SetDelimiter(",").Push("a", "b", stackage.Not().SetEncap(" ").SetNoPadding(true).SetLeadOnce(true).SetFold(true).Push("z")))
+			}},
+		)
+	}
 	// closures that are scheduling points (see schedUserPoint): under the controlled scheduler other
 	// threads run while one caller is inside user code in the middle of a query
 	for _, k := range []string{"AND", "LIST"} {
